@@ -101,22 +101,49 @@ theorem no_deadlock (sys : Sys S Op Out) (s0 : S) (progs : List (List Op))
       have : ¬ (d0 + 1 ≤ 1) := by omega
       simp [hown0, release, this]
 
-/-! The tie to the source: the translator regenerates `Generated.C03.methods`
-    (class, method, touches cache state?, whole body under the lock?) from the AST
-    of `LRI`/`LRU` on every run. -/
+/-! The tie to the source: the translator regenerates `Generated.C03.methods` from the AST of
+    `LRI`/`LRU` on every run (class, method, touches private state?, every such reference inside a lock
+    region?, has a lock region?, how the lock is taken, number of cache operations invoked outside
+    every lock region).  A lock region is recognised in any of its equivalent spellings:
+    `with self._lock:`, `self._lock.acquire(); try: … finally: self._lock.release()`, or a call of a
+    private helper that is itself wholly locked. -/
 
-/-- every public LRI/LRU method that touches ring/dict/lookup-table state runs under the lock -/
+/-- every public LRI/LRU method that touches ring/dict/lookup-table state does so only inside a lock region -/
 theorem all_state_methods_protected :
     ∀ m ∈ Generated.C03.methods, m.touches = true → m.locked = true := by
+  decide
+
+/-- no public method is a *composite* of separately-atomic steps: outside its lock regions a method
+    invokes no cache operation at all, or it consists of exactly one such invocation and nothing else
+    that touches state (`__ne__` = one `self == other`; `__repr__` = one C-level `dict.__repr__`).
+    A check-then-act such as `if key not in self: … ; return self[key]` is rejected here. -/
+theorem public_methods_atomic :
+    ∀ m ∈ Generated.C03.methods,
+      m.outsideOps = 0 ∨ (m.outsideOps = 1 ∧ m.region = false ∧ m.touches = false) := by
   decide
 
 /-- every dict mutator is overridden by LRI (an inherited C-level mutator would bypass ring and lock) -/
 theorem no_inherited_mutators : Generated.C03.inheritedMutators = [] := by
   decide
 
+/-- ONE lock per cache for its whole life: `self._lock` is assigned in the constructor only (a lock
+    re-created by `clear()` / `_init_ll()` would let a second thread in while the first still holds the
+    old one), and it is the re-entrant kind (`__getitem__ → on_miss → self[key] = …` re-acquires). -/
+theorem lock_created_once_reentrant :
+    Generated.C03.lockAssignedIn ≠ [] ∧
+    (∀ f ∈ Generated.C03.lockAssignedIn, f ∈ ["LRI.__init__", "LRU.__init__", "LRI.__new__", "LRU.__new__"]) ∧
+    (∀ c ∈ Generated.C03.lockCtors, c = "RLock") := by
+  decide
+
+/-- the private ring / table helpers (which take no lock themselves) are never referenced outside a
+    lock region by a public or self-locking method -/
+theorem helpers_only_under_lock : Generated.C03.helperReachedUnlocked = [] := by
+  decide
+
 /-- the table is not empty and does contain state-touching methods (non-vacuity) -/
 theorem lock_table_nonvacuous :
-    6 ≤ (Generated.C03.methods.filter (fun m => m.touches)).length := by
+    6 ≤ (Generated.C03.methods.filter (fun m => m.touches)).length ∧
+    4 ≤ Generated.C03.helpersNeedingLock.length := by
   decide
 
 /-! ### The LRI/LRU instance
